@@ -74,7 +74,7 @@ class Programs:
             return ['fork_edit', how, j, (l0 + 1000) if isinstance(l0, (int, float)) and not isinstance(l0, bool) else 'zz']
         if f == 'transpose':
             p = list(range(nd)); rng.shuffle(p); return ['transpose', [dims[j] for j in p]] if nd else ['T']
-        if f == 'newaxis': return ['newaxis', fresh, None, None, rng.randint(0, nd)]
+        if f == 'newaxis': return ['newaxis', fresh if (nd == 0 or rng.random() < 0.85) else rng.choice(dims), None, None, rng.randint(0, nd)]    # (a name the array has is refused)
         if f == 'query': return ['query', rng.choice(['monotonic', 'repr', 'labels', 'size', 'copy'])]
         if f == 'dataset': return ['dataset_roundtrip', 'k']
         if f == 'scalar_op': return ['scalar_op', rng.choice(['+', '*', '-']), rng.choice([2, 0.5]), rng.random() < 0.5]
